@@ -109,6 +109,24 @@ pub fn eval_connect(c: &ConnectCase) -> CaseOut {
                     }
                     if *e != Res::BufferTooSmall {
                         flag(&mut viol, "unexpected-error", &format!("connect-{:?}", e), format!("connect failed with {:?} for {:?}", e, c));
+                    } else {
+                        // exact length of the CONNECT asked for: "too little buffer" only if the transmit
+                        // buffer cannot hold it plus the serializer's fixed-header reserve
+                        let mut cp = Vec::new();
+                        mr::put_props(&mut cp, &[p(0x27, PVal::U32(c.rx as u32)), p(0x11, PVal::U32(c.expiry)), p(0x21, PVal::U16(8))]);
+                        let mut rem = 10 + cp.len() + 2 + spec.id.len();
+                        if let Some(w) = &spec.will {
+                            let mut wp = Vec::new();
+                            mr::put_props(&mut wp, &w.props);
+                            rem += wp.len() + 2 + w.topic.len() + 2 + w.data.len();
+                        }
+                        if let Some((u, pw)) = &spec.auth {
+                            rem += 2 + u.len() + 2 + pw.len();
+                        }
+                        let total = 1 + mr::varint_len(rem as u32) + rem;
+                        if round == 0 && spec.tx >= total + 4 {
+                            flag(&mut viol, "request-refused-although-it-fits", "connect", format!("a {}-byte CONNECT refused with BufferTooSmall in an idle {}-byte transmit buffer: {:?}", total, spec.tx, c));
+                        }
                     }
                 }
                 Ok(()) => match mr::decode_client(written) {
@@ -356,6 +374,17 @@ pub fn eval_pub(c: &PubCase) -> CaseOut {
                     flag(&mut viol, "error-kills-handle", &format!("publish-{:?}", e), format!("local failure {:?} closed the handle", e));
                 }
                 let acceptable = matches!(e, Res::BufferTooSmall | Res::Payload | Res::PacketTooLarge | Res::InvalidRequest);
+                if e == Res::BufferTooSmall && legal_request {
+                    // "too little buffer" only when the idle transmit buffer cannot hold the packet plus the
+                    // serializer's fixed-header reserve (at most 4 bytes more than the packet itself)
+                    let mut pb = Vec::new();
+                    mr::put_props(&mut pb, &want_props);
+                    let rem = 2 + c.topic_len + if c.qos > 0 { 2 } else { 0 } + pb.len() + c.payload_len;
+                    let total = 1 + mr::varint_len(rem as u32) + rem;
+                    if rem <= 268_435_455 && c.tx >= total + 4 {
+                        flag(&mut viol, "request-refused-although-it-fits", "publish", format!("a {}-byte PUBLISH refused with BufferTooSmall in an idle {}-byte transmit buffer: {:?}", total, c.tx, c));
+                    }
+                }
                 if !acceptable {
                     flag(&mut viol, "unexpected-error", &format!("publish-{:?}", e), format!("{:?} for {:?}", e, c));
                 }
@@ -533,6 +562,15 @@ pub fn eval_sub(c: &SubCase) -> CaseOut {
                 }
                 if !matches!(e, Res::BufferTooSmall | Res::InvalidRequest) {
                     flag(&mut viol, "unexpected-error", &format!("{}-{:?}", kind, e), format!("{:?} for {:?}", e, c));
+                }
+                if e == Res::BufferTooSmall && legal {
+                    let mut pb = Vec::new();
+                    mr::put_props(&mut pb, &props_ref);
+                    let rem = 2 + pb.len() + c.filters.iter().map(|f| 2 + f.0 + if c.unsubscribe { 0 } else { 1 }).sum::<usize>();
+                    let total = 1 + mr::varint_len(rem as u32) + rem;
+                    if rem <= 268_435_455 && c.tx >= total + 4 {
+                        flag(&mut viol, "request-refused-although-it-fits", kind, format!("a {}-byte {} refused with BufferTooSmall in an idle {}-byte transmit buffer: {:?}", total, kind, c.tx, c));
+                    }
                 }
                 if e == Res::InvalidRequest && legal {
                     flag(&mut viol, "valid-refused", kind, format!("legal request refused as invalid: {:?}", c));
